@@ -123,8 +123,14 @@ def generate(rng, tier):
             cls = re.sub(r"[-_]?\d+", "", name)
             (chosen if cls not in seen else rest).append((name, s))
             seen.add(cls)
-        for name, s in (chosen + rest)[:max(n, min(len(chosen), 6))]:
-            out.append(("%s-%s" % (tag, name), repolicy(s, "must")))
+        for k, (name, s) in enumerate((chosen + rest)[:max(n, min(len(chosen), 6))]):
+            r = repolicy(s, "must")
+            if k % 2 == 1:
+                # every other script hands framehop section bytes that start at an odd address (a view into a file
+                # mapping): nothing may depend on their alignment, least of all an "aligned copy" (seeded change C15-13)
+                r.lines[0] += " misalign=%d" % (1 + k % 3)
+                name += "-misaligned"
+            out.append(("%s-%s" % (tag, name), r))
     out += [(n_, repolicy(s, "must")) for n_, s in depth_suite(rng, tier)]
     out += [(n_, repolicy(s, "must")) for n_, s in nested_suite(rng)]
     _pairs[:] = out
